@@ -156,6 +156,12 @@ func c14Deriv(raw json.RawMessage) any {
 		pargs["images"] = strs(imgs)
 		pargs["errnames"] = strs(en)
 	case "WithoutUnnecessaryResources":
+	case "MarshalApply":
+		if op.Flag {
+			pargs["secretsContent"] = []string{"1"}
+		} else {
+			pargs["secretsContent"] = []string{"0"}
+		}
 	default:
 		return map[string]any{"build_err": "no heap program for " + op.Op}
 	}
@@ -163,6 +169,9 @@ func c14Deriv(raw json.RawMessage) any {
 	before := e.enc(reflect.ValueOf(p))
 	k := e.next
 	res, _, opErr := c14Apply(p, op)
+	if op.Op == "MarshalApply" && !op.Flag && res == nil {
+		res = p // without the option the encoders are handed the receiver itself (c14Apply reports that as "no project")
+	}
 	after := e.enc(reflect.ValueOf(p))
 	out := map[string]any{"src": before, "k": k, "op": progOp, "pargs": pargs, "unchanged": diffPath(before, after, "") == "", "nodes": k}
 	if opErr != nil {
@@ -350,6 +359,7 @@ var c14CarryFrame = map[string]map[string]bool{
 	"WithImagesResolved":              {"Services": true},
 	"WithServicesEnvironmentResolved": {"Services": true},
 	"WithServicesLabelsResolved":      {"Services": true},
+	"MarshalApply":                    {"Secrets": true},
 }
 
 // c14MinID: the smallest non-zero model identity in an encoding (opaque payloads excluded)
@@ -415,7 +425,7 @@ func c14DerivOps() []c14Op {
 	var out []c14Op
 	for _, op := range c14OpPool {
 		switch op.Op {
-		case "Copy", "ForEachService", "MarshalWithSecrets":
+		case "Copy", "ForEachService", "MarshalWithSecrets", "MarshalPlain", "Accessors":
 			continue
 		case "WithServicesTransform":
 			if op.Opt == "mutate" {
